@@ -65,6 +65,7 @@ func genIssuer(r *rand.Rand, uniq string) *issuerSpec {
 	sp := &issuerSpec{name: &dn{}, stable: true, sorted: true}
 	trait := func(t string) { sp.traits = append(sp.traits, t) }
 	knownOIDs := [][]int{oidC, oidO, oidOU, oidL, oidST, oidCN, {2, 5, 4, 5}, {2, 5, 4, 9}, {2, 5, 4, 17}, {0, 9, 2342, 19200300, 100, 1, 25}, {1, 2, 840, 113549, 1, 9, 1}}
+	allowUnstable := r.IntN(3) == 0
 	attr := func() nameAttr {
 		a := nameAttr{oid: knownOIDs[r.IntN(len(knownOIDs))]}
 		if r.IntN(6) == 0 {
@@ -72,7 +73,11 @@ func genIssuer(r *rand.Rand, uniq string) *issuerSpec {
 			trait("unknown-oid")
 		}
 		w := plainWords[r.IntN(len(plainWords))]
-		switch k := r.IntN(20); {
+		k := r.IntN(20)
+		if !allowUnstable && k >= 13 && k < 18 { // two names in three use only reproducible value forms
+			k = r.IntN(13)
+		}
+		switch {
 		case k < 9:
 			a.tag, a.val = tagPrintable, w
 		case k < 13:
